@@ -75,7 +75,7 @@ def only_class(cls):
 
 
 def strip(c):
-    c = copy.deepcopy({k: v for k, v in c.items() if k in ("lockstep", "mux", "maxlen", "frames")})
+    c = copy.deepcopy({k: v for k, v in c.items() if k in ("lockstep", "mux", "maxlen", "opts", "frames")})
     for f in c["frames"]:
         f.pop("obs", None)
     return c
@@ -96,7 +96,8 @@ class C12(Prop):
                  "g_gate_not_authentic", "g_gate_order", "g_gate_notice_fmts", "g_gate_write_type", "g_gate_write_order", "g_gate_untranslated",
                  "relay.go")
     rule = ("one case = one real WebSocket connection (coder/websocket client) to mocrelay.NewRelay(recording handler) behind "
-            "httptest.NewServer, half of them mounted through ServeMux; 4..15 frames ending with a valid CLOSE/REQ whose "
+            "httptest.NewServer, half of them mounted through ServeMux; RelayOption is SendTimeout 30 s with a ping every minute, "
+            "or (10% each) SendTimeout 0, SendTimeout 0 and PingDuration 0, PingDuration 0 alone (0 = switched off); 4..15 frames ending with a valid CLOSE/REQ whose "
             "scripted reply is a sentinel; each frame is 50% a message that must be forwarded (REQ/COUNT with 1..3 valid "
             "filters, CLOSE, AUTH with an authentic or an altered event, EVENT signed by the harness over its own NIP-01 "
             "serialisation, the same genuine event again, insignificant inner/trailing white space) and 50% one that must draw "
@@ -219,11 +220,13 @@ class C12(Prop):
                     yield c2
         if c.get("mux"):
             yield dict(c, mux=False)
+        if c.get("opts"):
+            yield dict(c, opts=0)
         if 0 < (c.get("maxlen") or 0) < (1 << 20):
             yield dict(c, maxlen=1 << 20)
 
     def summarize(self, c):
-        return {"lockstep": c.get("lockstep"), "mux": c.get("mux"),
+        return {"lockstep": c.get("lockstep"), "mux": c.get("mux"), "opts": c.get("opts") or 0,
                 "frames": [{"cls": f["cls"], "bin": f["bin"], "frag": f.get("frag") or [], "txt": f.get("txt", "")[:160],
                             "exp": f["exp"], "obs": f.get("obs"),
                             "out": [o["t"] for o in f.get("out") or []]} for f in c["frames"]],
@@ -259,6 +262,8 @@ class C12(Prop):
             if c.get("lockstep") and not c.get("ran_lockstep"):
                 d["lockstep_degraded_by_timeout"] += 1
             d["via_servemux"] += 1 if c.get("mux") else 0
+            k = "relay_options_%d" % (c.get("opts") or 0)
+            d[k] = d.get(k, 0) + 1
             ml = c.get("maxlen") or (1 << 20)
             if ml < (1 << 20):
                 d["limit_just_above_longest_frame"] += 1
